@@ -409,6 +409,50 @@ def r7(ctx, rep):
                     ok = True
         rep.check(ok, f"recogniser:{rec}:bottom-unused", f"preprocess::{rec} must skip the rewrite (`continue`) when any column of the bottom relation is in the output: "
                   "after the rewrite those columns do not exist, so they silently vanish from the result", file=f["file"], line=f["l"], fn=f["path"])
+    _adjacent_distinct(ctx, rep)
+
+
+def _adjacent_distinct(ctx, rep):
+    """DISTINCT-ness of a recognised set operation is read from the transform that directly precedes the join (or directly follows it)."""
+    import re
+    from guards import parents
+    syn = ctx.syn
+    for rec in ("intersect", "except"):
+        f = syn.fn("preprocess::" + rec, crate="prqlc")
+        par = parents(f["body"])
+        # offset of the join in the accumulated pipeline: `let SqlTransform::Join {..} = &res[res.len() - J] else`
+        J = None
+        for n in walk(f["body"]):
+            if n.get("k") == "local" and n.get("else") is not None and n["pat"].get("k") == "p_struct" and last_seg(n["pat"]["p"]) == "Join":
+                m = re.search(r"\[\(?(\w+)\.len\(\) - (\d+)\)?\]", show(n.get("init"), maxdepth=8))
+                if m:
+                    acc, J = m.group(1), int(m.group(2))
+        if J is None:
+            rep.bad(f"recogniser:{rec}:distinct-adjacent", "the position of the recognised Join in the accumulated pipeline was not found", file=f["file"], line=f["l"], fn=f["path"])
+            continue
+        allowed = {f"&{acc}[({acc}.len() - {J + 1})]", f"{acc}[({acc}.len() - {J + 1})]", "pipeline.peek()"}
+        writes, bad = 0, []
+        for n in walk(f["body"]):
+            if n.get("k") == "assign" and show(n["rhs"]) == "true" and "distinct" in show(n["lhs"]):
+                writes += 1
+                # enclosing tests on the Distinct variant
+                cur, scruts = n, []
+                while id(cur) in par:
+                    p_ = par[id(cur)]
+                    if p_.get("k") == "if" and (cur is p_.get("t") or any(x is cur for x in walk(p_["t"]))):
+                        c = p_["c"]
+                        if c.get("k") == "let" and "Distinct" in show(c["pat"]):
+                            scruts.append(show(c["e"], maxdepth=8))
+                        elif c.get("k") == "macro" and c["n"] == "matches" and "Distinct" in show(c["pat"]):
+                            scruts.append(show(c["a"][0], maxdepth=8))
+                        elif "Distinct" in show(c, maxdepth=8):
+                            scruts.append(show(c, maxdepth=8))
+                    cur = p_
+                if not scruts or any(sc not in allowed for sc in scruts):
+                    bad.append(scruts or ["<unconditional>"])
+        rep.check(writes >= 1 and not bad, f"recogniser:{rec}:distinct-adjacent", f"preprocess::{rec} decides `DISTINCT` from {bad}; only the transform next to the recognised join ({sorted(allowed)}) says whether "
+                  "the top relation is distinct at that point — a Distinct further up followed by a row-multiplying join would turn EXCEPT/INTERSECT ALL into the DISTINCT form and drop duplicate rows",
+                  file=f["file"], line=f["l"], fn=f["path"])
 
 
 def r8(ctx, rep):
@@ -443,6 +487,30 @@ def r9(ctx, rep):
               file=b["file"], line=fb[0][0] if fb else b["l"], fn=b["path"])
 
 
+def r10(ctx, rep):
+    rep.rule("C01.R10", "a relation taken out of its declaration to be defined is either emitted as a CTE or put back on every path", floor=1)
+    import flow
+    syn = ctx.syn
+    n_sites = 0
+    for f in syn.fns:
+        if f["crate"] != "prqlc" or "body" not in f or "/sql/" not in f["file"]:
+            continue
+        for n in walk(f["body"]):
+            # role anchor: `if let RelationStatus::NotYetDefined(r) = <decl>.relation.take_to_define() { .. }` with no else: the declaration is now marked Defined
+            if n.get("k") == "if" and n["c"].get("k") == "let" and any(x.get("k") == "mcall" and x["m"] == "take_to_define" for x in walk(n["c"]["e"])) and n.get("e") is None:
+                n_sites += 1
+
+                def done(x):
+                    if x.get("k") == "mcall" and x["m"] == "push" and show(x["r"], maxdepth=5).endswith(".ctes") and any(y.get("k") == "struct" and last_seg(y["p"]) == "Cte" for y in walk(x)):
+                        return True
+                    return x.get("k") == "assign" and show(x["lhs"], maxdepth=5).endswith(".relation") and "NotYetDefined(" in show(x["rhs"], maxdepth=6)
+                bad = flow.must_precede_exits(n["t"], done)
+                rep.check(not bad, f"defined-or-restored:{f['name']}", f"{f['path']}: after take_to_define() the declaration says `Defined`; the exit(s) at {bad} neither push a `Cte` for it nor restore "
+                          "`NotYetDefined`: the next reference to the same let-table is emitted as a bare `FROM name` although no CTE of that name exists (or reads a real table of that name)",
+                          file=f["file"], line=n["l"], fn=f["path"])
+    rep.check(n_sites >= 1, "sites", f"expected the take_to_define() site of compile_relation_instance, found {n_sites}")
+
+
 def run(ctx, rep):
-    for r in (r1, r2, r3, r4, r5, r6, r7, r8, r9):
+    for r in (r1, r2, r3, r4, r5, r6, r7, r8, r9, r10):
         rep.guard(r, ctx)
